@@ -171,9 +171,20 @@ class Store(object):
             self.fs = OSFS(self.tmp)
         populate(self.fs)
 
+    @staticmethod
+    def _raw_mem(fsx):
+        """Entry tree with bytes and the EXACT modification times (reading may move `accessed`, nothing else)."""
+        def go(e):
+            if e.is_dir:
+                return ("D", repr(e.modified_time), [(k, go(v)) for k, v in e._dir.items()])
+            return ("F", repr(e.modified_time), e._bytes_file.getvalue())
+        return repr(go(fsx.root))
+
     def snapshot(self):
         if self.kind == "mem":
-            return fsops.snap_memoryfs(self.fs) if not self.fs.isclosed() else self._last
+            if self.fs.isclosed():
+                return self._last
+            return fsops.snap_memoryfs(self.fs) + "|" + self._raw_mem(self.fs)
         out = []
         for root, dirs, files in os.walk(self.tmp):
             dirs.sort()
@@ -187,7 +198,7 @@ class Store(object):
 
     def remember(self):
         if self.kind == "mem":
-            self._last = fsops.snap_memoryfs(self.fs)
+            self._last = fsops.snap_memoryfs(self.fs) + "|" + self._raw_mem(self.fs)
 
     def cleanup(self):
         try:
@@ -273,6 +284,11 @@ def archive_constructions():
                     q = d.rstrip("/") + "/" + n
                     i = fsx.getinfo(q, namespaces=["details", "access", "tar", "zip", "stat", "link"])
                     rows.append((q, repr(sorted((k, sorted(v.items(), key=repr)) for k, v in i.raw.items()))))
+                    for ns in (None, ["basic"], ["details"], ["details", "access"]):     # every namespace request
+                        j = fsx.getinfo(q, namespaces=ns)
+                        rows.append((q, repr(ns), repr(sorted((k, sorted(v.items(), key=repr)) for k, v in j.raw.items()))))
+                for sc in fsx.scandir(d):
+                    rows.append((d, "scandir", sc.name, sc.is_dir))
                     if i.is_dir:
                         todo.append(q)
                     else:
@@ -383,11 +399,48 @@ def probe_returned(label, name, args, value, st, results):
                 after = st.snapshot()
                 results.append(dict(construction=label, method="%s(...).%s" % (name, m), args=repr(args)[:80],
                                     verdict=verdict, changed=before != after, handle=True))
+            # reading through the handle in every way must not change data or metadata either
+            for m, a in (("readable", []), ("seekable", []), ("tell", []), ("read", [1]), ("readline", []),
+                         ("readinto", [bytearray(2)]), ("readlines", [3]), ("seek", [0]), ("read", []),
+                         ("__iter__", []), ("fileno", []), ("isatty", []), ("flush", [])):
+                before = st.snapshot()
+                try:
+                    rr = getattr(obj, m)(*a)
+                    if m == "__iter__":
+                        list(rr)
+                    verdict = "ok"
+                except Exception as e:  # noqa
+                    verdict = "refused"
+                after = st.snapshot()
+                if before != after:
+                    results.append(dict(construction=label, method="%s(...).%s" % (name, m), args=repr(args)[:80],
+                                        verdict=verdict, changed=True, read_call=True))
             try:
                 obj.close()
             except Exception:
                 pass
         elif isinstance(obj, FS):
+            # queries on a returned sub-filesystem (its root in every spelling) must change nothing
+            for m, a in (("getinfo", ["/"]), ("getinfo", ["", ["details", "access"]]), ("getbasic", ["/"]),
+                         ("getdetails", ["/"]), ("listdir", ["/"]), ("scandir", ["."]), ("opendir", ["/"]),
+                         ("isdir", ["/"]), ("exists", ["./"]), ("getmeta", []), ("walk.files", []), ("tree", [])):
+                before = st.snapshot()
+                try:
+                    tgt = obj
+                    for part in m.split("."):
+                        tgt = getattr(tgt, part)
+                    import contextlib
+                    with contextlib.redirect_stdout(io.StringIO()):
+                        rr = tgt(*a)
+                    if inspect.isgenerator(rr) or hasattr(rr, "__next__"):
+                        list(rr)
+                    verdict = "ok"
+                except Exception as e:  # noqa
+                    verdict = type(e).__name__
+                after = st.snapshot()
+                if before != after:
+                    results.append(dict(construction=label, method="%s(...).%s" % (name, m), args=repr(a)[:80],
+                                        verdict=verdict, changed=True, sub=True, read_call=True))
             for m, a in (("writebytes", ["zz", b"Z"]), ("makedir", ["zd"]), ("remove", ["g.txt"]),
                          ("removetree", ["/"]), ("setinfo", ["/", {"details": {"modified": 5}}]),
                          ("movedir", ["sub", "sub2", True]), ("copydir", ["sub", "sub3", True]),
@@ -399,6 +452,48 @@ def probe_returned(label, name, args, value, st, results):
                                     verdict=verdict, changed=before != after, sub=True))
         elif type(obj).__name__ in ("Globber", "BoundGlobber", "BoundWalker"):
             pass
+
+
+def read_idioms_probe(label, make, results):
+    """Every way of READING through a read-only filesystem (buffered / unbuffered / text handles, wrappers from the io
+    module, bulk copies out of it) leaves data and metadata (modification times) of the storage unchanged."""
+    import fs.copy
+    from fs.memoryfs import MemoryFS
+
+    def idioms(ro):
+        yield "open(rb,buffering=0).read", lambda: ro.open("f.txt", "rb", buffering=0).read()
+        yield "open(rb,buffering=1)", lambda: ro.open("f.txt", "rb", buffering=1).read()
+        yield "open(rb,buffering=4096).read", lambda: ro.open("d/g.txt", "rb", buffering=4096).read()
+        yield "open(r).readlines", lambda: ro.open("d/g.txt", "r").readlines()
+        yield "for line in open(r,buffering=16)", lambda: [l for l in ro.open("d/g.txt", "r", buffering=16)]
+        yield "io.BufferedReader(openbin).read", lambda: io.BufferedReader(ro.openbin("f.txt")).read()
+        yield "io.TextIOWrapper(openbin).read", lambda: io.TextIOWrapper(ro.openbin("d/g.txt")).read()
+        yield "openbin.readinto", lambda: ro.openbin("f.txt").readinto(bytearray(3))
+        yield "readbytes/readtext/hash/getsize", lambda: (ro.readbytes("f.txt"), ro.readtext("d/g.txt"),
+                                                       ro.hash("f.txt", "md5"), ro.getsize("f.txt"))
+        yield "download", lambda: ro.download("f.txt", io.BytesIO())
+        yield "copy_file out", lambda: fs.copy.copy_file(ro, "f.txt", MemoryFS(), "c")
+        yield "copy_fs out (workers=0)", lambda: fs.copy.copy_fs(ro, MemoryFS())
+        yield "copy_fs out (workers=2, preserve_time)", lambda: fs.copy.copy_fs(ro, MemoryFS(), workers=2, preserve_time=True)
+        yield "getinfo all namespaces", lambda: [ro.getinfo(p, ["details", "access", "stat", "link"]).raw
+                                                 for p in ("f.txt", "d", "d/g.txt", "/")]
+    ro, st = make()
+    try:
+        for what, fn in idioms(ro):
+            before = st.snapshot()
+            try:
+                fn()
+                verdict = "ok"
+            except Exception as e:  # noqa
+                verdict = type(e).__name__
+            results.append(dict(construction=label, method="read idiom: " + what, args="", verdict=verdict,
+                                changed=before != st.snapshot(), read_call=True))
+    finally:
+        try:
+            ro.close()
+        except Exception:
+            pass
+        st.cleanup()
 
 
 def glob_walk_probe(label, make, results):
@@ -624,11 +719,14 @@ def run_c04(report):
     for label, make in cons:
         sweep_readonly(label, make, methods, rnd, results)
         glob_walk_probe(label, make, results)
+        read_idioms_probe(label, make, results)
     bad = []
     for r in results:
         base = r["method"].split("(")[0]
         if r["changed"]:
             bad.append(("read-only filesystem modified", r))
+        elif r.get("read_call"):
+            pass
         elif r.get("handle") and r["verdict"] == "ok":
             mode_writing = False
             try:
@@ -1368,7 +1466,7 @@ def exactly_once_probe(label, make, family, scenarios, bad, stats):
     """first finalisation (close / with-block), then repeats (close, __del__, garbage collection): no repeat may
     raise, and what the first one released is released exactly once - every directory it removed is re-created
     (with a canary file in it) before the repeats and must survive them, as must every other byte of the storage."""
-    for first, repeats in scenarios:
+    for first, repeats, recreate in scenarios:
         with _Unraisable() as un0:
             try:
                 st = make()
@@ -1382,7 +1480,7 @@ def exactly_once_probe(label, make, family, scenarios, bad, stats):
                                                             " (then its finaliser raised %s)" % un0.seen[0]))
             return
         obj = st.obj
-        how = "%s, then %s" % (first, "+".join(repeats))
+        how = "%s, then %s%s" % (first, "+".join(repeats), " (path re-created in between)" if recreate else "")
 
         def note(why, method, verdict="", changed=False):
             bad.append((why, dict(construction=label, how=how, method=method, verdict=str(verdict), changed=changed)))
@@ -1408,6 +1506,8 @@ def exactly_once_probe(label, make, family, scenarios, bad, stats):
                 planted = []
                 for d in dirs:
                     if not os.path.isdir(d):
+                        if not recreate:
+                            continue        # the released path stays absent: a repeat finds nothing to release
                         os.mkdir(d)
                     c = os.path.join(d, CANARY)
                     with open(c, "w") as fh:
@@ -1610,16 +1710,16 @@ def run_c18(report):
     # every constructor keyword combination x every way of finalising more than once
     kstats = dict(scenarios=0, repeats=0, constructor_failures=set())
     kcons, kwords, unvaried = keyword_constructions(thorough, rnd)
-    every = [(f, r) for f in FINAL_FIRST for r in FINAL_REPEATS]
+    every = [(f, r, rc) for f in FINAL_FIRST for r in FINAL_REPEATS for rc in (True, False)]
     shift = rnd.randrange(len(every))
     for ci, (label, make, family) in enumerate(kcons):
         if thorough:
             scen = every
         else:
-            # quick tier: every keyword combination with some of the ten orders (4 for TempFS, 1 for an archive),
-            # rotating so that every order is used with many combinations
-            k = 4 if family == "tempfs" else 1
-            scen = [every[(shift + ci * k + j) % len(every)] for j in range(k)]
+            # quick tier: every keyword combination with some of the twenty scenarios (6 for TempFS, 1 for an
+            # archive), rotating so that every scenario is used with many combinations (7 and 3 are coprime to 20)
+            k = 6 if family == "tempfs" else 1
+            scen = [every[(shift + ci * 7 + j * 3) % len(every)] for j in range(k)]
         exactly_once_probe(label, make, family, scen, bad, kstats)
     fin = finalisers_probe()
     for f in fin:
@@ -1662,7 +1762,11 @@ def run_c18(report):
                     "data/metadata methods must raise FilesystemClosed, NO call may change anything; close() failing "
                     "midway (target directory removed / is a directory / unwritable, file object closed / write raises) "
                     "via close() and via with-exit: reported, final, scratch gone, repeat harmless, nothing written "
-                    "later (retry after the obstacle is removed, __del__, gc); finaliser probes; "
+                    "later (retry after the obstacle is removed, __del__, gc); finaliser probes; every combination of "
+                    "constructor keyword values (keywords by reflection) of TempFS and write-mode ZipFS/TarFS x first "
+                    "finalisation (close / with) x repeats (close, close+close, __del__, gc, close+__del__+gc) x the "
+                    "released directory re-created with a canary file / left absent: no repeat raises, nothing is "
+                    "released twice (clean() of a TempFS(auto_clean=False) included); "
                     "non-trivial = distinct (construction, method, verdict)",
                samples=results[:3], finaliser_probes=fin, disagreements_checked=len(bad),
                concrete_callables_swept=len(swept), class_specific_callables=sorted(specific_names),
@@ -1672,14 +1776,19 @@ def run_c18(report):
                constructor_keywords_not_varied=sorted(unvaried),
                constructor_failures=sorted(kstats["constructor_failures"]),
                finalise_exactly_once_scenarios=kstats["scenarios"], finalise_exactly_once_repeats=kstats["repeats"],
-               finalisation_orders=["%s, then %s" % (f, "+".join(r)) for f, r in every],
+               finalisation_orders=sorted(set("%s, then %s" % (f, "+".join(r)) for f, r, _rc in every)),
+               released_path_between_first_and_repeated_finalisation=["re-created with a canary file", "left absent"],
                pending_findings_seen=sorted(pending_seen),
                traces_validated_against_impl=len(results) - len(bad))
     return report.finish(proof, cov, assumptions=[
         "getmeta, lock, getsyspath, getospath, geturl, hassyspath, hasurl, isclosed, check, validatepath, match, "
         "match_glob, desc and the class-specific callables (write_zip, mount, add_fs, which, clean, ...) may answer "
         "from the object after close(): they are called and must change nothing, but need not raise; tree() may "
-        "print the error"])
+        "print the error",
+        "constructor keyword values are chosen from the keyword's name and default (booleans both ways, identifier "
+        "default / custom / empty / containing '/', temp_dir None / a private directory, every target and temp_fs "
+        "kind, two encodings, the compressions the interpreter supports); a combination whose constructor raises is "
+        "recorded under constructor_failures and not judged by C18"])
 
 
 def finalisers_probe():
